@@ -9,6 +9,7 @@ FREE = lambda a: lop("free", a=a, x=0, objs=[])
 WAIT = lambda a, dl=NONE: lop("wait", a=a, dl=dl, x=0, objs=[])
 SWC = lambda a, dl=NONE: lop("swc", a=a, dl=dl, x=0, objs=[])      # nsync_sem_wait_with_cancel_ (own waiter, dl, note a; 0 = no note)
 SEMV = lambda t: lop("semv", a=t, x=0, objs=[])                   # nsync_mu_semaphore_v on thread t's waiter semaphore
+CADD = lambda d: lop("cadd", a=d, x=0, objs=[])                     # nsync_counter_add on the counter that is object 9 of "waitn"
 WAITN = lambda objs, dl=NONE: lop("waitn", a=int("".join(str(o) for o in objs)), dl=dl, x=0, objs=list(objs))
 
 
@@ -56,6 +57,11 @@ CONF = {
     # a timed wait on a note whose notifier has to wait for a concurrently disconnecting child (WAIT_FOR_NO_CHILDREN drops the lock)
     "s_par_disc": (["C13", "C05", "C08"], "q", dict(tree=CHAIN2, NN=2, MaxNow=1, progs=[[NOTIFY(1)], [NOTIFY(2)], [SWC(1, 1)]])),
     "w_par_disc": (["C13", "C11", "C08"], "q", dict(tree=CHAIN2, NN=2, MaxNow=1, progs=[[NOTIFY(1)], [NOTIFY(2)], [WAIT(1, 1)]])),
+    # nsync_wait_n over objects of different kinds: notes and a counter (object 9) in one call
+    "x_nc": (["C11", "C13"], "q", dict(tree=T((1, 0, NONE)), NN=1, CV0=1, MaxNow=1, progs=[[WAITN([1, 9], 1), POLL(1)], [CADD(-1)], [NOTIFY(1)]])),
+    "x_cn": (["C11", "C13"], "q", dict(tree=T((1, 0, NONE)), NN=1, CV0=1, MaxNow=0, progs=[[WAITN([9, 1])], [NOTIFY(1), CADD(-1)]])),
+    "x_2w": (["C11", "C13"], "t", dict(tree=T((1, 0, 1)), NN=1, CV0=2, MaxNow=1, progs=[[WAITN([9, 1])], [WAITN([1, 9], 1)], [CADD(-1), CADD(-1)]])),
+    "x_zero": (["C11"], "q", dict(tree=T((1, 0, NONE), (2, 0, NONE)), NN=2, CV0=0, MaxNow=0, progs=[[WAITN([1, 9, 2]), WAITN([9])], [NOTIFY(2)]])),
     # C19: allocation failure at every constructor call of tree-building scenarios
     "a_seq": (["C19"], "q", dict(tree=T((1, 0, NONE)), NN=3, progs=[[NEW(2, 1, NONE, 1), NEW(2, 1), NEW(3, 2, 5, 1), NEW(3, 2, 5), NOTIFY(1), POLL(3)]])),
     "a_root": (["C19"], "q", dict(tree=T(), NN=2, progs=[[NEW(1, 0, NONE, 1), NEW(1, 0, 3), NEW(2, 1, 7, 1), NEW(2, 1, 7), POLL(2)]], MaxNow=0)),
@@ -65,13 +71,13 @@ CONF = {
 
 
 def note_conf(c):
-    d = dict(progs=c["progs"], init={"NN": c["NN"], "tree": ",".join("%d.%d.%d" % (e["id"], e["par"], 0 if e["dl"] == NONE else e["dl"]) for e in c["tree"]) or "-"},
+    d = dict(progs=c["progs"], init={"NN": c["NN"], "CV0": c.get("CV0", 0), "tree": ",".join("%d.%d.%d" % (e["id"], e["par"], 0 if e["dl"] == NONE else e["dl"]) for e in c["tree"]) or "-"},
              defs={"MCTree0": c["tree"]})
     return d
 
 
 def consts_of(c):
-    return dict(NN=c["NN"], MaxNow=c.get("MaxNow", 0))
+    return dict(NN=c["NN"], MaxNow=c.get("MaxNow", 0), CV0=c.get("CV0", 0))
 
 
 def note_check(prop, tier, replay, wanted_inv, wanted_or, rule_extra="", extra=None):
